@@ -596,7 +596,7 @@ func main() {
 	})
 
 	// (b) random tuples
-	nRand := r.Pick(5000000, 200000000)
+	nRand := r.Pick(5000000, 100000000)
 	shards := 64
 	per := nRand / shards
 	vf.Parallel(shards, workers, func(s int) {
